@@ -10,9 +10,9 @@ CLAIMED = {
    note='Trusted: the solver stand-in (dst/solver_stub.py, validated by chi\'s own sundials tests: 511/520 pass under it), the reference transition function in dst/props/c11.py for documented effects of each operation; ambiguous sequences are not executed.'),
 }
 CLAIMED['C08'] = dict(
-   text='Seeded exploration of fix / re-fix / release / rename histories on every reducible kind of object (4 error models, SBML/PKPD mechanistic models with routes and regimens, all population models incl. composed and covariate ones, LogLikelihood, PredictiveModel, PopulationPredictiveModel) against a never-fixed twin built from the same recipe: names and counts equal the original list minus the fixed indices, every evaluation (value, pointwise, seeded samples, sensitivities restricted to the free entries, simulate +/- sensitivities) at the free values equals the twin at the substituted full vector, including under injected solver failures. Sampling, not proof.',
+   text='Seeded exploration of fix / re-fix / release / rename histories on every reducible kind of object (4 error models, SBML/PKPD mechanistic models with routes and regimens, all population models incl. composed and covariate ones, LogLikelihood, PredictiveModel, PopulationPredictiveModel, ProblemModellingController with and without population model) against a never-fixed twin built from the same recipe: names and counts equal the original list minus the fixed indices, every evaluation (value, pointwise, seeded samples, sensitivities restricted to the free entries, simulate +/- sensitivities) at the free values equals the twin at the substituted full vector, including under injected solver failures. Sampling, not proof.',
    ref='DESIGN.md section 5 (C08)',
-   note='Trusted: solver stand-in; the twin only sees the current dict, so order-independence and release-restores follow from the comparison; the ProblemModellingController is not covered yet.')
+   note='Trusted: solver stand-in; the twin only sees the current dict, so order-independence and release-restores follow from the comparison.')
 CLAIMED['C17'] = dict(
    text='Seeded exploration of population-model compositions (all leaf classes, covariate and reduced wrappers, composed models; kinds cycled by run index so every pair meets) under reconfiguration histories (set_n_ids, set_dim_names, set_parameter_names incl. reset, set_covariate_names, fix/release, set_population_parameters, re-composition) followed by compositions on top (LogLikelihood/LogPosterior/PredictiveModel over SBML and toy mechanistic models, HierarchicalLogLikelihood/Posterior, PopulationFilterLogPosterior, PopulationPredictiveModel). After every operation: count = number of names = accepted vector length = gradient length, n_hierarchical_parameters sums to the hierarchical count, IDs mark exactly the individual-level entries, default ID-prefixed names are distinct, composite names are the concatenation of the parts. Sampling, not proof.',
    ref='DESIGN.md section 5 (C17)',
